@@ -116,3 +116,83 @@ func VerifC13ReceiverQueue() {
 	}
 	lib.VerifReach("two frames queued")
 }
+
+// c13SendKind performs one send of the given kind from `from` to the process `to` (addressed by pid,
+// by an alias of it, or by its registered name) with network order keeping on.
+func c13SendKind(c *connection, k int, from, to gen.PID, aliasID uint64, n int, compress bool) error {
+	alias := gen.Alias{Node: to.Node, Creation: to.Creation, ID: [3]uint64{7, aliasID, 9}}
+	name := gen.ProcessID{Name: "p", Node: to.Node}
+	opts := gen.MessageOptions{KeepNetworkOrder: true, Ref: gen.Ref{Node: from.Node, Creation: from.Creation, ID: [3]uint64{uint64(100 + n), 0, 0}}}
+	if compress {
+		opts.Compression = gen.Compression{Enable: true, Threshold: 0, Type: gen.CompressionTypeLZW}
+	}
+	switch k {
+	case 0:
+		return c.SendPID(from, to, opts, n)
+	case 1:
+		return c.SendProcessID(from, name, opts, n)
+	case 2:
+		return c.SendAlias(from, alias, opts, n)
+	case 3:
+		return c.SendExit(from, to, gen.TerminateReasonShutdown)
+	case 4:
+		return c.SendResponse(from, to, opts, n)
+	case 5:
+		return c.SendResponseError(from, to, opts, gen.ErrTimeout)
+	case 6:
+		return c.CallPID(from, to, opts, n)
+	case 7:
+		return c.CallProcessID(from, name, opts, n)
+	}
+	return c.CallAlias(from, alias, opts, n)
+}
+
+// VerifC13SenderKinds: every sender method that addresses one process (SendPID/ProcessID/Alias, SendExit,
+// SendResponse/ResponseError, CallPID/ProcessID/Alias), in every pairing of two kinds, optionally
+// compressed: two consecutive messages of one sender travel over the same pooled link, and each frame
+// carries a non-zero receiver order byte (0 = "no order": round-robin over the receive queues), equal for
+// two frames of the same kind. Ids whose residue mod 255 is 0 are excluded here: that class is the
+// recorded open finding order-zero, decided by VerifC13SenderLink/VerifC13ReceiverQueue.
+func VerifC13SenderKinds() {
+	k1 := lib.VerifShard("kind", 9)
+	k2 := lib.VerifPick("kind2", 9)
+	pool := lib.VerifPick("pool", lib.VerifParam("maxpool", 4)) + 1
+	compress := lib.VerifParam("compress", 0) == 1 && lib.VerifPick("z", 2) == 1
+	core := &vfCore{name: "a@h", creation: 11}
+	c, sinks := vfConnection(core, "b@h", 22, pool)
+	from := gen.PID{Node: "a@h", Creation: 11}
+	to := gen.PID{Node: "b@h", Creation: 22}
+	var aliasID uint64
+	if lib.VerifParam("idbits", 64) == 16 {
+		// every residue mod 255 is reached by 16-bit ids; the full 64-bit range is the thorough tier
+		from.ID, to.ID, aliasID = uint64(lib.VerifUint16("from")), uint64(lib.VerifUint16("to")), uint64(lib.VerifUint16("alias"))
+	} else {
+		from.ID, to.ID, aliasID = lib.VerifUint64("from"), lib.VerifUint64("to"), lib.VerifUint64("alias")
+	}
+	lib.VerifAssume(from.ID%255 != 0)
+	lib.VerifAssume(to.ID%255 != 0)
+	lib.VerifAssume(aliasID%255 != 0)
+	before := c13Counts(sinks)
+	lib.VerifAssert(c13SendKind(c, k1, from, to, aliasID, 1, compress) == nil, "first send accepted")
+	first := c13Link(sinks, before)
+	before = c13Counts(sinks)
+	lib.VerifAssert(c13SendKind(c, k2, from, to, aliasID, 2, compress) == nil, "second send accepted")
+	second := c13Link(sinks, before)
+	lib.VerifReach("two sends of two kinds routed")
+	lib.VerifAssert(first >= 0 && first == second, "two messages of one sender travel over the same link whatever their kinds")
+	if first < 0 || second < 0 {
+		return
+	}
+	f1 := sinks[first].frames[len(sinks[first].frames)-1]
+	if first == second {
+		f1 = sinks[first].frames[len(sinks[first].frames)-2]
+	}
+	f2 := sinks[second].frames[len(sinks[second].frames)-1]
+	lib.VerifAssert(len(f1) > 7 && len(f2) > 7, "frames have a header")
+	if len(f1) > 7 && len(f2) > 7 {
+		lib.VerifAssert(f1[6] != 0 && f2[6] != 0, "an ordered message carries a non-zero receiver order byte")
+		if k1 == k2 {
+			lib.VerifAssert(f1[6] == f2[6], "two frames of one kind for one receiver carry the same order byte")
+		}
+	}
+}
